@@ -43,7 +43,10 @@ def dir_case(rng):
         text, arg, v4 = _mk(rng, F)
         gz = F in ("export", "brackets", "discobrackets") and rng.random() < 0.6
         name = "f%d.%s%s" % (i, F, ".gz" if gz else "")
-        if F in ("brackets", "discobrackets") and bad is None and rng.random() < 0.08:
+        # (bracket format only: cutting the last character of a DISCObracket file shortens its sentence part - a line
+        # with fewer words than tokens is outside the domain of the discobracket model, `DiscoLineOK`; the first version
+        # of this generator did that and produced a false alarm on the unchanged tree at seed 1)
+        if F == "brackets" and bad is None and rng.random() < 0.12:
             text = text.rstrip()[:-1] + "\n"                      # a group cut off by the end of the file: rejected
             arg = proto.enc_s(text)
             bad = name
